@@ -1736,6 +1736,10 @@ namespace jsoncons {
                         case json_storage_kind::json_ref:
                             return compare(rhs.cast<json_ref_storage>().value());
                         default:
+                            if (is_string_storage(rhs.storage_kind()) && is_number_tag(rhs.tag()))
+                            {
+                                return -rhs.compare(*this);
+                            }
                             return static_cast<int>(storage_kind()) - static_cast<int>(rhs.storage_kind());
                     }
                     break;
@@ -1765,6 +1769,10 @@ namespace jsoncons {
                         case json_storage_kind::json_ref:
                             return compare(rhs.cast<json_ref_storage>().value());
                         default:
+                            if (is_string_storage(rhs.storage_kind()) && is_number_tag(rhs.tag()))
+                            {
+                                return -rhs.compare(*this);
+                            }
                             return static_cast<int>(storage_kind()) - static_cast<int>(rhs.storage_kind());
                     }
                     break;
